@@ -3,6 +3,7 @@ package ast
 import (
 	tok "github.com/apmckinlay/gsuneido/compile/tokens"
 	. "github.com/apmckinlay/gsuneido/core"
+	"github.com/apmckinlay/gsuneido/util/dnum"
 	rt "github.com/apmckinlay/gsuneido/zzverifrt"
 )
 
@@ -482,5 +483,23 @@ func VerifC30FoldRangeIn() {
 			return b.Nary(tok.Or, es)
 		}
 		return b.Nary(tok.And, es)
+	})
+}
+
+// Outside the claim (DESIGN.md section 4, C30), thorough only: beyond the exact-integer domain the
+// Folder's re-association of 16-digit decimal arithmetic changes rounding: c1 + x + c2 is folded
+// to (c1 + c2) + x. x is a 16-digit decimal of 17 or 18 integer digits, c1 and c2 are 1..9.
+// A failure of this label documents that limit of the claim; it is not a defect of the Folder.
+//
+//symgo:harness prop=C30 tier=thorough arith=int tshards=1 ttimeout=600 qtimeout=30000 bounds=c1_+_x_+_c2_with_literals_1..9_and_x_any_positive_16-digit_decimal_with_exponent_17_or_18 outside=this_harness_is_outside_the_C30_claim:_it_documents_that_re-association_changes_decimal_rounding
+func VerifC30FoldReassoc() {
+	c1, c2 := rt.IntRange("c1", 1, 9), rt.IntRange("c2", 1, 9)
+	coef := rt.U64Range("coef", 1000_0000_0000_0000, 9999_9999_9999_9999)
+	exp := 17 + rt.Pick("exp", 2)
+	ctx := &v30ctx{}
+	x := ctx.id("x", SuDnum{Dnum: dnum.Raw(+1, coef, exp)})
+	a, b := ctx.lit(IntVal(c1)), ctx.lit(IntVal(c2))
+	v30run("fold/reassociation-rounding", ctx, func(bd Builder) Expr {
+		return bd.Nary(tok.Add, []Expr{a.expr(), x.expr(), b.expr()})
 	})
 }
